@@ -415,6 +415,27 @@ def regtable_task():
                         res.oblig(ok)
                         if not ok and len(bad) < 40:
                             bad.append(('%s (compress=%s)' % (form % (s1, s2), c), n, str(base[form]), str(out)))
+    # a label that is spelled like a register name: operands written with that spelling still mean the register
+    for n in range(32):
+        nm = ABI[n]
+        for c in (False, True):
+            forms = ['addi x0 x0 0\n' + nm + ':\naddi %s %s 1\nj ' + nm, nm + ':\nadd %s %s x9\nbeq x8 x0 ' + nm,
+                     'x%d:\nslli %%s %%s 3\nj x%d' % (n, n)]
+            for form in forms:
+                try:
+                    base = bytes(real.assemble(form % (str(n), str(n)), compress=c))
+                except Exception as e:
+                    base = repr(e)[:120]
+                for s1 in (nm, 'x%d' % n):
+                    try:
+                        out = bytes(real.assemble(form % (s1, s1), compress=c))
+                    except Exception as e:
+                        out = repr(e)[:120]
+                    npairs += 1
+                    ok = out == base
+                    res.oblig(ok)
+                    if not ok and len(bad) < 40:
+                        bad.append(('%s (compress=%s)' % ((form % (s1, s1)).replace('\n', ' / '), c), n, str(base), str(out)))
     res['validated'] += npairs
     # integers in decimal, hex or binary (finite table, compared concretely): every operand
     # position that takes a number, negative values included
